@@ -72,7 +72,7 @@ def ErrInv (s : Sys) : Prop := (s.w = .armed ∨ s.env.st = .ERROR) ∧ NoRecove
 theorem step_inv (s : Sys) (l : Label) (h : ErrInv s) (he : enabled s l = true) : ErrInv (istep s l) := by
   obtain ⟨hw, hnr⟩ := h
   cases l with
-  | reply ready =>
+  | arrive =>
     simp only [enabled] at he
     cases hi : s.inflight with
     | none => rw [hi] at he; cases he
@@ -80,18 +80,27 @@ theorem step_inv (s : Sys) (l : Label) (h : ErrInv s) (he : enabled s l = true) 
       cases hp : i.pending with
       | nil => rw [hi] at he; simp [hp] at he
       | cons pv rest =>
-        obtain ⟨p, v⟩ := pv
         simp only [istep, hi, hp]
-        obtain ⟨f1, f2, _, _, _⟩ := setLeaf_frame { s with inflight := some { i with pending := rest } } p v ready
-        refine ⟨?_, ?_⟩
-        · rcases hw with hw | hw
-          · left
-            rw [setLeaf_w_not_parked _ _ _ _ (by simp [hw])]; exact hw
-          · right; rw [f1]; exact hw
-        · intro j hj
-          rw [f2] at hj
-          cases hj
-          exact hnr i hi
+        refine ⟨hw, ?_⟩
+        intro j hj
+        cases hj
+        exact hnr i hi
+  | apply k ready =>
+    simp only [istep]
+    cases hk : s.updq[k]? with
+    | none => exact ⟨hw, hnr⟩
+    | some pv =>
+      obtain ⟨p, v⟩ := pv
+      simp only
+      obtain ⟨f1, f2, _, _, _, _⟩ := setLeaf_frame { s with updq := s.updq.eraseIdx k } p v ready
+      refine ⟨?_, ?_⟩
+      · rcases hw with hw | hw
+        · left
+          rw [setLeaf_w_not_parked _ _ _ _ (by simp [hw])]; exact hw
+        · right; rw [f1]; exact hw
+      · intro j hj
+        rw [f2] at hj
+        exact hnr j hj
   | finish =>
     simp only [enabled] at he
     cases hi : s.inflight with
@@ -109,7 +118,7 @@ theorem step_inv (s : Sys) (l : Label) (h : ErrInv s) (he : enabled s l = true) 
           · rw [try_from_error _ _ _ _ _ hw hne]; exact hw
       · intro j hj; cases hj
   | devStop ok ready =>
-    obtain ⟨e1, e2, _, _, e5⟩ := devStopStep_frame s ok ready
+    obtain ⟨e1, e2, _, _, e5, _⟩ := devStopStep_frame s ok ready
     simp only [istep]
     refine ⟨?_, ?_⟩
     · rcases hw with hw | hw
@@ -131,7 +140,7 @@ theorem run_inv (s : Sys) (ls : List Label) (h : ErrInv s) (hv : validRun s ls =
 theorem quiescent_inv_error (s : Sys) (h : ErrInv s) (hq : quiescent s = true) : s.env.st = .ERROR := by
   obtain ⟨hw, _⟩ := h
   simp only [quiescent, enabled, Bool.and_eq_true, Bool.not_eq_true'] at hq
-  obtain ⟨⟨⟨h1, h2⟩, _⟩, h4⟩ := hq
+  obtain ⟨⟨⟨⟨h1, _⟩, h2⟩, _⟩, h4⟩ := hq
   cases hi : s.inflight with
   | some i =>
     rw [hi] at h1 h2
@@ -145,7 +154,7 @@ theorem quiescent_inv_error (s : Sys) (h : ErrInv s) (hq : quiescent s = true) :
 
 theorem step_measure (s : Sys) (l : Label) (he : enabled s l = true) : budget (istep s l) < budget s := by
   cases l with
-  | reply ready =>
+  | arrive =>
     simp only [enabled] at he
     cases hi : s.inflight with
     | none => rw [hi] at he; cases he
@@ -153,15 +162,23 @@ theorem step_measure (s : Sys) (l : Label) (he : enabled s l = true) : budget (i
       cases hp : i.pending with
       | nil => rw [hi] at he; simp [hp] at he
       | cons pv rest =>
-        obtain ⟨p, v⟩ := pv
         simp only [istep, hi, hp]
-        obtain ⟨_, f2, f3, _, _⟩ := setLeaf_frame { s with inflight := some { i with pending := rest } } p v ready
-        have hwle := setLeaf_weight_le { s with inflight := some { i with pending := rest } } p v ready
         unfold budget
-        rw [f2, f3, hi]
-        simp only [hp, List.length_cons]
-        simp only at hwle
+        simp only [hi, hp, List.length_cons, List.length_append, List.length_nil]
         omega
+  | apply k ready =>
+    simp only [enabled, decide_eq_true_eq] at he
+    simp only [istep]
+    have hk : s.updq[k]? = some s.updq[k] := List.getElem?_eq_getElem he
+    rw [hk]
+    simp only
+    obtain ⟨_, f2, f3, _, _, f6⟩ := setLeaf_frame { s with updq := s.updq.eraseIdx k } s.updq[k].1 s.updq[k].2 ready
+    have hwle := setLeaf_weight_le { s with updq := s.updq.eraseIdx k } s.updq[k].1 s.updq[k].2 ready
+    unfold budget
+    rw [f2, f3, f6]
+    simp only [List.length_eraseIdx, he, if_true]
+    simp only at hwle
+    omega
   | finish =>
     simp only [enabled] at he
     cases hi : s.inflight with
@@ -173,10 +190,10 @@ theorem step_measure (s : Sys) (l : Label) (he : enabled s l = true) : budget (i
       omega
   | devStop ok ready =>
     simp only [enabled, Bool.and_eq_true, decide_eq_true_eq] at he
-    obtain ⟨_, e2, e3, e4, _⟩ := devStopStep_frame s ok ready
+    obtain ⟨_, e2, e3, e4, _, e6⟩ := devStopStep_frame s ok ready
     simp only [istep]
     unfold budget
-    rw [e2, e3]
+    rw [e2, e3, e6]
     have : s.inflight = none := by
       cases hi : s.inflight with
       | none => rfl
@@ -186,10 +203,10 @@ theorem step_measure (s : Sys) (l : Label) (he : enabled s l = true) : budget (i
     omega
   | timer =>
     simp only [enabled, Bool.and_eq_true, decide_eq_true_eq] at he
-    obtain ⟨_, t2, t3, t4⟩ := timerStep_spec s
+    obtain ⟨_, t2, t3, t4, t5⟩ := timerStep_spec s
     simp only [istep]
     unfold budget
-    rw [t2, t3, t4, he.2]
+    rw [t2, t3, t4, t5, he.2]
     have : s.inflight = none := by
       cases hi : s.inflight with
       | none => rfl
@@ -210,7 +227,9 @@ theorem run_length (s : Sys) (ls : List Label) (hv : validRun s ls = true) :
 
 theorem not_quiescent_enabled (s : Sys) (h : quiescent s = false) : ∃ l, enabled s l = true := by
   simp only [quiescent] at h
-  by_cases h1 : enabled s (.reply true) = true
+  by_cases h0 : enabled s .arrive = true
+  · exact ⟨_, h0⟩
+  by_cases h1 : enabled s (.apply 0 true) = true
   · exact ⟨_, h1⟩
   by_cases h2 : enabled s .finish = true
   · exact ⟨_, h2⟩
@@ -267,15 +286,15 @@ theorem C03_root_error (f : Forest) (p : List Nat) (hc : Consistent f) (hcrit : 
 
 theorem fail_frame (k : Kind) (s : Sys) (vs : List (List Nat × Bool)) :
     (fail k s vs).env = s.env ∧ (fail k s vs).inflight = s.inflight ∧ (fail k s vs).hooks = s.hooks ∧
-    (fail k s vs).stopReq ≤ s.stopReq + vs.length := by
+    (fail k s vs).stopReq ≤ s.stopReq + vs.length ∧ (fail k s vs).updq = s.updq := by
   induction vs generalizing s with
-  | nil => exact ⟨rfl, rfl, rfl, Nat.le_refl _⟩
+  | nil => exact ⟨rfl, rfl, rfl, Nat.le_refl _, rfl⟩
   | cons v vs ih =>
     obtain ⟨q, r⟩ := v
     simp only [fail]
-    obtain ⟨a1, a2, a3, a4⟩ := ih (failOne k s q r)
-    obtain ⟨b1, b2, b3, b4⟩ := failOne_frame k s q r
-    refine ⟨a1.trans b1, a2.trans b2, a3.trans b3, ?_⟩
+    obtain ⟨a1, a2, a3, a4, a5⟩ := ih (failOne k s q r)
+    obtain ⟨b1, b2, b3, b4, b5⟩ := failOne_frame k s q r
+    refine ⟨a1.trans b1, a2.trans b2, a3.trans b3, ?_, a5.trans b5⟩
     rw [b4] at a4
     simp only [List.length_cons]
     split at a4 <;> omega
@@ -330,8 +349,9 @@ def C03_critical_to_error_full : Prop :=
     any transition in flight, every hook set, every order of the enabled internal steps and
     every outcome of the in-flight / queued transitions — PROVIDED the watcher is at its
     receive when the root notifies for (one of) the critical victim(s) (`(p, true) ∈ vs`):
-      (1) the watcher is armed and at most `budget` (≤ budget before + number of victims)
-          internal steps can follow,
+      (1) the watcher is armed and at most `budget` (≤ budget before + number of victims;
+          budget = 2 × replies still to arrive + 1 if a transition is in flight + queued task-state
+          updates + queued STOP requests + 2/1/0 for the watcher) internal steps can follow,
       (2) when none is enabled any more the environment is in ERROR,
       (3) such a run exists (so (2) is not vacuous).
     `C03_error_stable` adds that ERROR is then kept. -/
@@ -345,11 +365,11 @@ theorem C03_critical_to_error_partial (s : Sys) (k : Kind) (vs : List (List Nat 
     (∃ ls, validRun s1 ls = true ∧ quiescent (irun s1 ls) = true) := by
   obtain ⟨_, hw, hnr⟩ := hlive
   have harm := fail_arms k s vs (Or.inl hw) hk (Or.inr hcrit)
-  obtain ⟨_, fi, _, fs⟩ := fail_frame k s vs
+  obtain ⟨_, fi, _, fs, fu⟩ := fail_frame k s vs
   have hinv : ErrInv (fail k s vs) := ⟨Or.inl harm, fun i hi => by rw [fi] at hi; exact hnr i hi⟩
   refine ⟨harm, ?_, ?_, exists_maximal_run _ _ (Nat.le_refl _)⟩
   · unfold budget
-    rw [fi, harm, hw]
+    rw [fi, fu, harm, hw]
     simp only [Watch.weight]
     split <;> omega
   · intro ls hv
@@ -378,15 +398,20 @@ theorem C03_error_stable (s : Sys) (ls : List Label) (he : s.env.st = .ERROR) (h
     have h1 := step_inv s l hinv hv.1
     have hst : (istep s l).env.st = .ERROR := by
       cases l with
-      | reply ready =>
+      | arrive =>
         cases hi : s.inflight with
         | none => simp [istep, hi, he]
         | some i =>
           cases hp : i.pending with
           | nil => simp [istep, hi, hp, he]
-          | cons pv rest =>
-            simp only [istep, hi, hp]
-            rw [(setLeaf_frame _ _ _ _).1]; exact he
+          | cons pv rest => simp [istep, hi, hp, he]
+      | apply k ready =>
+        simp only [istep]
+        cases hk : s.updq[k]? with
+        | none => exact he
+        | some pv =>
+          simp only
+          rw [(setLeaf_frame _ _ _ _).1]; exact he
       | finish =>
         cases hi : s.inflight with
         | none => simp [istep, hi, he]
@@ -426,7 +451,7 @@ theorem C03_noncritical_inert_partial (s : Sys) (k : Kind) (p : List Nat) (ready
     (∀ l, enabled s1 l = enabled s l) ∧
     (quiescent s = true → ∀ ls, validRun s1 ls = true → ls = [] ∧ (irun s1 ls).env.st = s.env.st) := by
   have hstop : (effect k s.env.st).stop = false := by simpa [Kind.quiet] using hq
-  obtain ⟨fe, fi, _, fs⟩ := failOne_frame k s p ready
+  obtain ⟨fe, fi, _, fs, fu⟩ := failOne_frame k s p ready
   rw [hstop] at fs
   simp only [Bool.false_eq_true, if_false, Nat.add_zero] at fs
   have hnone : ∀ st, (updState s.f p st).2 = none := fun st => updState_plain_none s.f p st hplain
@@ -447,7 +472,7 @@ theorem C03_noncritical_inert_partial (s : Sys) (k : Kind) (p : List Nat) (ready
       | some su => exact ⟨by first | rfl | trivial, by first | rfl | trivial, by rw [updStatus_S]; exact hS⟩
   have hen : ∀ l, enabled (failOne k s p ready) l = enabled s l := by
     intro l
-    cases l <;> simp only [enabled, fi, fs, hwd.1]
+    cases l <;> simp only [enabled, fi, fs, fu, hwd.1]
   refine ⟨fe, hwd.1, fi, fs, hwd.2.1, hwd.2.2, hen, ?_⟩
   intro hqs ls hv
   cases ls with
@@ -476,7 +501,7 @@ theorem C03_run_end_recorded (s : Sys) (hst : s.env.st = .RUNNING)
     Step.runEvent "GO_ERROR" .doneOk s.env.rn (s.env.clock + 2) ∈ s1.log := by
   unfold timerStep
   simp only
-  rw [(setLeaves_frame _ _ _ _).1, (setLeaves_frame _ _ _ _).2.2.2.2]
+  rw [(setLeaves_frame _ _ _ _).1, (setLeaves_frame _ _ _ _).2.2.2.2.1]
   simp only [hh]
   have key : ∀ env : Env, env.st = .RUNNING → env.pending = [] → env.vars.soeor = .empty → env.vars.eoeor = .empty →
       let g := tryTransition env [] .GO_ERROR true false
